@@ -16,7 +16,18 @@ import Ogen.JsonEqualGeneric_model
 namespace JCodec
 open JEqG
 
-abbrev Json := J Int
+/-- a JSON number as the integer decoders see it: an integer literal, or a literal with a fraction or an exponent
+    part (which no integer decoder takes, whatever its value) -/
+inductive Num where
+  | int (n : Int)
+  | frac
+
+instance (n : Nat) : OfNat Num n := ⟨.int n⟩
+
+abbrev Json := J Num
+
+/-- the range of Go's `int` (64 bits), which `type: integer` without a format is generated as -/
+def inRange (n : Int) : Bool := decide (-9223372036854775808 ≤ n) && decide (n ≤ 9223372036854775807)
 
 /-- numeric keywords of an integer schema -/
 structure IntC where
@@ -35,8 +46,8 @@ structure LenC where
 inductive Ty where
   | int (c : IntC) | str (c : LenC) | bool
   | arr (c : LenC) (nul : Bool) (item : Ty)
-  /-- name, required, nullable, type -/
-  | obj (fields : List (String × Bool × Bool × Ty))
+  /-- `closed` = `additionalProperties: false`; fields: name, required, nullable, type -/
+  | obj (closed : Bool) (fields : List (String × Bool × Bool × Ty))
 
 abbrev Field := String × Bool × Bool × Ty
 
@@ -54,11 +65,11 @@ def Val.isOmitted : Val → Bool
 /-! ## encoder -/
 mutual
 def encode : Ty → Val → Json
-  | _, .int i => .num i
+  | _, .int i => .num (.int i)
   | _, .str s => .str s
   | _, .bool b => .bool b
   | .arr _ _ t, .arr xs => .arr (encodeItems t xs)
-  | .obj fs, .obj ms => .obj (encodeFields fs ms)
+  | .obj _ fs, .obj ms => .obj (encodeFields fs ms)
   | _, _ => .null
 def encodeItems (t : Ty) : List Val → List Json
   | [] => []
@@ -93,12 +104,12 @@ def requiredOk : List Field → List Val → Bool
 
 mutual
 def decode : Ty → Json → Option Val
-  | .int _, .num n => some (.int n)
+  | .int _, .num (.int n) => if inRange n then some (.int n) else none
   | .str _, .str s => some (.str s)
   | .bool, .bool b => some (.bool b)
   | .arr _ nul t, .arr xs => (decodeItems nul t xs).map .arr
-  | .obj fs, .obj kvs =>
-    match decodeMembers fs (fs.map fun _ => .omitted) kvs with
+  | .obj closed fs, .obj kvs =>
+    match decodeMembers closed fs (fs.map fun _ => .omitted) kvs with
     | some st => if requiredOk fs st then some (.obj st) else none
     | none => none
   | _, _ => none
@@ -108,15 +119,15 @@ def decodeItems (nul : Bool) (t : Ty) : List Json → Option (List Val)
     match memberOf nul x (decode t x), decodeItems nul t xs with
     | some v, some vs => some (v :: vs)
     | _, _ => none
-def decodeMembers (fs : List Field) (st : List Val) : List (String × Json) → Option (List Val)
+def decodeMembers (closed : Bool) (fs : List Field) (st : List Val) : List (String × Json) → Option (List Val)
   | [] => some st
   | (k, jv) :: rest =>
     match findIdx fs k 0 with
-    | none => decodeMembers fs st rest
+    | none => if closed then none else decodeMembers closed fs st rest   -- `unexpected field` / `d.Skip()`
     | some (i, nul, t) =>
       match memberOf nul jv (decode t jv) with
       | none => none
-      | some v => decodeMembers fs (st.set i v) rest
+      | some v => decodeMembers closed fs (st.set i v) rest
 end
 
 /-! ## what the schema says (the specification the codec is measured against) -/
@@ -125,7 +136,7 @@ def names (fs : List Field) : List String := fs.map (·.1)
 /-- property names are distinct at every level (they are keys of one `properties` object) -/
 def Ty.WF : Ty → Prop
   | .arr _ _ t => t.WF
-  | .obj fs => (names fs).Nodup ∧ WFs fs
+  | .obj _ fs => (names fs).Nodup ∧ WFs fs
   | _ => True
 where WFs : List Field → Prop
   | [] => True
@@ -142,11 +153,11 @@ def memberOk (req nul : Bool) (x : Val) (p : Prop) : Prop :=
 mutual
 /-- a value of the type: what the generated Go type can hold, in states -/
 def WT : Ty → Val → Prop
-  | .int _, .int _ => True
+  | .int _, .int n => inRange n = true
   | .str _, .str _ => True
   | .bool, .bool _ => True
   | .arr _ nul t, .arr xs => WTItems nul t xs
-  | .obj fs, .obj ms => WTFields fs ms
+  | .obj _ fs, .obj ms => WTFields fs ms
   | _, _ => False
 def WTItems (nul : Bool) (t : Ty) : List Val → Prop
   | [] => True
@@ -167,13 +178,13 @@ def slotOk (nul : Bool) (j : Json) (p : Prop) : Prop :=
 mutual
 /-- **the schema as a predicate on documents** (by recursion on the schema): the right JSON type, every item
     admitted, every required property present, every present property admitted, `null` only where nullable;
-    properties the schema does not name are free -/
+    properties the schema does not name are free unless the object is closed -/
 def Valid : Ty → Json → Prop
-  | .int _, .num _ => True
+  | .int _, .num (.int n) => inRange n = true
   | .str _, .str _ => True
   | .bool, .bool _ => True
   | .arr _ nul t, .arr xs => ∀ x ∈ xs, slotOk nul x (Valid t x)
-  | .obj fs, .obj kvs => ValidFields fs kvs
+  | .obj closed fs, .obj kvs => ValidFields fs kvs ∧ (closed = true → ∀ kv ∈ kvs, kv.1 ∈ names fs)
   | _, _ => False
 def ValidFields : List Field → List (String × Json) → Prop
   | [], _ => True
@@ -200,7 +211,7 @@ def validate : Ty → Val → Bool
   | .int c, .int n => c.ok n
   | .str c, .str s => c.ok s.length
   | .arr c _ t, .arr xs => c.ok xs.length && validateItems t xs
-  | .obj fs, .obj ms => validateFields fs ms
+  | .obj _ fs, .obj ms => validateFields fs ms
   | _, _ => true
 def validateItems (t : Ty) : List Val → Bool
   | [] => true
@@ -213,10 +224,10 @@ end
 mutual
 /-- the keywords as a predicate on documents (by recursion on the schema); `null` and absent members carry none -/
 def Constr : Ty → Json → Prop
-  | .int c, .num n => c.ok n = true
+  | .int c, .num (.int n) => c.ok n = true
   | .str c, .str s => c.ok s.length = true
   | .arr c _ t, .arr xs => c.ok xs.length = true ∧ ∀ x ∈ xs, Constr t x
-  | .obj fs, .obj kvs => ConstrFields fs kvs
+  | .obj _ fs, .obj kvs => ConstrFields fs kvs
   | _, _ => True
 def ConstrFields : List Field → List (String × Json) → Prop
   | [], _ => True
